@@ -580,7 +580,11 @@ func (d *Datastore) runDeviationUpdate(ctx context.Context, dm map[string]sdcpb.
 			log.Errorf("%s: failed to convert value to its YANG type: %v ", d.Name(), err)
 			continue
 		}
-		if !utils.EqualTypedValues(nfiv, v) {
+		// the running value is compared in the YANG type of the path as well (a value that cannot be brought to it is compared as it is)
+		if nv, err := utils.TypedValueToYANGType(v, scRsp.GetSchema()); err == nil && nv != nil {
+			v = nv
+		}
+		if !equalDeviationValues(scRsp.GetSchema(), nfiv, v) {
 			log.Debugf("%s: intent %s has a NOT_APPLIED deviation: configured: %v -> expected %v",
 				d.Name(), intentsUpdates[0].Owner(), v, nfiv)
 			rsp := &sdcpb.WatchDeviationResponse{
@@ -627,7 +631,7 @@ func (d *Datastore) runDeviationUpdate(ctx context.Context, dm map[string]sdcpb.
 				log.Errorf("%s: failed to convert value to its YANG type: %v ", d.Name(), err)
 				continue
 			}
-			if !utils.EqualTypedValues(nfiv, niv) {
+			if !equalDeviationValues(scRsp.GetSchema(), nfiv, niv) {
 				log.Debugf("%s: intent %s has an OVERRULED deviation: ruling intent has: %v -> overruled intent has: %v",
 					d.Name(), intUpd.Owner(), nfiv, niv)
 				// TODO: generate an OVERRULED deviation
@@ -724,6 +728,32 @@ func (d *Datastore) runDeviationUpdate(ctx context.Context, dm map[string]sdcpb.
 	d.md.Lock()
 	d.currentIntentsDeviations = newDeviations
 	d.md.Unlock()
+}
+
+// equalDeviationValues compares two values of one path that have been brought to the YANG type of the path.
+// The entries of a leaf-list that is not ordered by the user have no order of their own: two such leaf-lists are the
+// same value when they hold the same entries, each as often. Everything else is compared with utils.EqualTypedValues.
+func equalDeviationValues(schemaElem *sdcpb.SchemaElem, a, b *sdcpb.TypedValue) bool {
+	ll := schemaElem.GetLeaflist()
+	if ll == nil || ll.GetIsUserOrdered() || a.GetLeaflistVal() == nil || b.GetLeaflistVal() == nil {
+		return utils.EqualTypedValues(a, b)
+	}
+	ae, be := a.GetLeaflistVal().GetElement(), b.GetLeaflistVal().GetElement()
+	if len(ae) != len(be) {
+		return false
+	}
+	counts := make(map[string]int, len(ae))
+	for _, e := range ae {
+		counts[utils.TypedValueToString(e)]++
+	}
+	for _, e := range be {
+		k := utils.TypedValueToString(e)
+		if counts[k] == 0 {
+			return false
+		}
+		counts[k]--
+	}
+	return true
 }
 
 // DatastoreRollbackAdapter implements the types.RollbackInterface and encapsulates the Datastore.
